@@ -488,11 +488,15 @@ def run(chk):
         "d in {2t, t, 0.6t, 0.4t, 0, -0.4t, -0.6t, -t, -2t} with t the smallest printable step): shown value == contender - baseline resp. (c - b) / |b| * 100 (zero-safe), a cell is signed "
         "and coloured by direction exactly when its printed value is non-zero, relative and absolute cell agree in sign and colour, swapping flips both, self comparison is an unsigned "
         "neutral zero, the plain cell is the rich cell's text; plain flag read only for colour selection; same formatter for file (plain) and console (rich); "
-        "a line only when both values are not None; scalar metric guards use `is None`, not truthiness; optional members of a stored task result (throughput mean, processing time) are "
-        "read with a default in both races (reads evaluated on a record without them). Roles are derived from data flow and positions, not from names: parameters of _line by "
-        "position, the mode attribute as the one _metrics_table assigns from its flag parameter, races by dataflow from report(); helper methods / static methods / module-level "
-        "functions that _diff and _line call are interpreted together with them, records kept in hoisted locals or returned by extracted helper methods are followed, lines built in a "
-        "loop over a literal table are expanded per row; a construct that cannot be located is reported as not recognised (inconclusive), never as a finding."
+        "a line only when both values are not None; tests on compared scalar values decide alike for 0 and non-zero values (evaluated, not read off the spelling); optional members of a "
+        "stored task result (throughput mean, processing time) are read with a default in both races (reads evaluated on a record without them). Roles are derived from data flow and "
+        "positions, not from names: parameters of _line by position, the mode attribute as the one _metrics_table assigns from its flag parameter, races by dataflow from report() along the "
+        "call graph of the reporter (direct calls, nested helpers, aliases, tuples of bound methods; pairs unpacked from a generator over both races or from a helper that returns a pair), "
+        "the writer's data parameters by which table reaches them. A construct inside an extracted helper stands for one instance per call of the helper (label, flag, iterated list, "
+        "compared value resolved to the arguments of each call), a construct in a loop / comprehension over a literal table for one instance per row (rows whose guards are false "
+        "dropped); helper methods / static methods / module-level functions that _diff and _line call are interpreted together with them (comprehensions, loops over literal tables and "
+        "appends included), records kept in hoisted locals or returned by extracted helper methods are followed; a construct that cannot be located is reported as not recognised "
+        "(inconclusive), never as a finding."
     )
     chk.not_decided = "numeric formatting, tabulate output, the content of the race results themselves."
     CR = rp.cls("ComparisonReporter")
@@ -1461,7 +1465,6 @@ def run(chk):
             p_plain, p_rich = plains[0], riches[0]
     # the rendering by role: a callable applied to (<headers>, <one of the two data parameters>) - positionally or by keyword - whose result reaches the console sink resp. the file
     # sink: directly, through a single-assignment local, or through a module-level helper function it is handed to (an extracted "append to the report file" helper)
-    wsdefs = local_defs(ws)
     CONSOLE, FILE = ("print_internal", "println"), ("writelines", "write")
 
     def closure(e, defs):
@@ -1604,7 +1607,6 @@ def run(chk):
     # per-task lines only for tasks of BOTH races. Shapes: a loop over one race's tasks (directly, through a hoisted local or wrapped in list / sorted / tuple) whose body
     # tests membership in the other race's tasks (`if t in X: ...` / `if t not in X: continue`), a loop over a comprehension that filters by that membership, or a comprehension
     # / generator expression whose generator over the tasks carries the membership test as its condition; in _metrics_table or in a helper method extracted from it
-    recv_ = params_of(mt)[0]
     _tenv = {}
 
     def unwrap(e, m_, depth=0):
